@@ -307,7 +307,7 @@ theorem Cap.captureUpToSize_spec {orig : List Nat} {c c' : Cap} {n : Nat} {r : R
 /-- `capture_to_end`, under the invariant. -/
 theorem Cap.captureToEnd_spec {orig : List Nat} {c c' : Cap} {r : Res Unit}
     (h : Inv orig c) (hr : c.captureToEnd = (r, c')) :
-    Inv orig c' ∧ c.pre <+: c'.pre ∧ c'.pos = c.pos ∧
+    Inv orig c' ∧ c.pre <+: c'.pre ∧ c'.pos = c.pos ∧ c'.src.failAt = c.src.failAt ∧
     (r = .ok () → c'.pre = orig ∧ c'.eof = true) ∧
     (∀ e, r = .err e → e = .source ∧ c'.src.faulted = true) ∧
     (∀ s, r ≠ .panic s) := by
@@ -317,19 +317,19 @@ theorem Cap.captureToEnd_spec {orig : List Nat} {c c' : Cap} {r : Res Unit}
   · rename_i hce
     simp only [Prod.mk.injEq] at hr
     obtain ⟨rfl, rfl⟩ := hr
-    refine ⟨⟨hd, hp, he⟩, List.prefix_refl _, rfl, fun _ => ⟨?_, hce⟩, by simp, by simp⟩
+    refine ⟨⟨hd, hp, he⟩, List.prefix_refl _, rfl, rfl, fun _ => ⟨?_, hce⟩, by simp, by simp⟩
     have := he hce
     rw [this] at hd
     simpa using hd
   · dsimp only at hr
-    obtain ⟨t1, _, t4, t5⟩ := readToEnd_spec c.src
+    obtain ⟨t1, t2, t4, t5⟩ := readToEnd_spec c.src
     have hd' : c.pre ++ (readToEnd c.src).bytes ++ (readToEnd c.src).src.data = orig := by
       rw [List.append_assoc, t1, hd]
     split at hr
     · rename_i hf
       simp only [Prod.mk.injEq] at hr
       obtain ⟨rfl, rfl⟩ := hr
-      refine ⟨⟨hd', by simp; omega, ?_⟩, List.prefix_append _ _, rfl, by simp,
+      refine ⟨⟨hd', by simp; omega, ?_⟩, List.prefix_append _ _, rfl, t2, by simp,
         fun e hee => ⟨by simpa using hee.symm, t4 hf⟩, by simp⟩
       intro hce
       simp_all
@@ -337,7 +337,7 @@ theorem Cap.captureToEnd_spec {orig : List Nat} {c c' : Cap} {r : Res Unit}
       simp only [Bool.not_eq_true] at hf
       simp only [Prod.mk.injEq] at hr
       obtain ⟨rfl, rfl⟩ := hr
-      refine ⟨⟨hd', by simp; omega, fun _ => t5 hf⟩, List.prefix_append _ _, rfl,
+      refine ⟨⟨hd', by simp; omega, fun _ => t5 hf⟩, List.prefix_append _ _, rfl, t2,
         fun _ => ⟨?_, rfl⟩, by simp, by simp⟩
       have := t5 hf
       rw [this] at hd'
@@ -553,5 +553,26 @@ theorem drain_spec (r : InReader) (b : Nat) (hb : b ≠ 0) (hw : r.wf) :
     simp only [List.append_assoc]
     rw [i1]
     exact q1
+
+theorem readToEnd_faulted (s : Source) (hf : s.faulted = true) :
+    (readToEnd s).bytes = [] ∧ (readToEnd s).failed = true := by
+  have := Source.read_faulted s (s.data.length + 1) hf (by omega)
+  rw [readToEnd.eq_def]
+  split
+  · exact ⟨rfl, rfl⟩
+  · rename_i hs; rw [hs] at this; simp at this
+  · rename_i hs; rw [hs] at this; simp at this
+
+/-- `capture_up_to_size(n)` never captures beyond `n` bytes. -/
+theorem Cap.captureUpToSize_bound (c : Cap) (n : Nat) :
+    (c.captureUpToSize n).2.pre.length ≤ max c.pre.length n := by
+  unfold Cap.captureUpToSize
+  dsimp only
+  split
+  · simp only; omega
+  · obtain ⟨_, t2, _⟩ := takeReadToEnd_spec c.src (n - c.pre.length)
+    split
+    · simp only [List.length_append]; omega
+    · split <;> (simp only [List.length_append]; omega)
 
 end Xt.Input
